@@ -46,7 +46,7 @@ void Value::verify_sig(bool compact) {
     if (type != T_DATA) abort("invalid type (must be data)");
     std::vector<std::vector<uint8_t>> args;
     if (!extract_values(args) || args.size() != 3) abort("invalid input (needs a sighash, a pubkey, and a signature)");
-    if (args[0].size() != 32 && args[0].size() != 64) abort("invalid input (sighash must be 32 or 64 bytes)");
+    if (args[0].size() != 32) abort("invalid input (sighash must be 32 bytes)");
     const uint256 sighash(args[0]);
 
     if (args[1].size() == 32) {
@@ -319,6 +319,9 @@ void Value::do_taproot_tweak_pubkey() {
 }
 
 void Value::do_pubkey_to_xpubkey() {
+    if (!secp256k1_context_sign) ECC_Start();
+
+    if (type != T_DATA) abort("invalid type (must be data)");
     CPubKey pubkey(data);
     if (!pubkey.IsValid()) abort("invalid pubkey");
     secp256k1_pubkey pk;
